@@ -119,6 +119,13 @@ class SimSocket:
         del rx.buf[:n]
         return out
 
+    def recv_into(self, buffer, nbytes=0, flags=0):
+        view = memoryview(buffer)
+        n = nbytes or len(view)
+        data = self.recv(n)
+        view[: len(data)] = data
+        return len(data)
+
     def readable(self):
         return self.rx is not None and self.rx.readable()
 
